@@ -1278,9 +1278,10 @@ class Image(Vectorizable, Landmarkable, Viewable, LandmarkableViewable):
             raise ValueError("All max indices must be greater that the min " "indices")
         min_bounded = self.constrain_points_to_bounds(min_indices)
         max_bounded = self.constrain_points_to_bounds(max_indices)
-        all_max_bounded = np.all(min_bounded == min_indices)
-        all_min_bounded = np.all(max_bounded == max_indices)
-        if not (constrain_to_boundary or all_max_bounded or all_min_bounded):
+        all_min_bounded = np.all(min_bounded == min_indices)
+        all_max_bounded = np.all(max_bounded == max_indices)
+        # the request is inside the image only if neither side had to be moved
+        if not (constrain_to_boundary or (all_min_bounded and all_max_bounded)):
             # points have been constrained and the user didn't want this -
             raise ImageBoundaryError(min_indices, max_indices, min_bounded, max_bounded)
 
